@@ -17,7 +17,9 @@ def main(argv):
         return 2
     try:
         if not a.no_build:
-            vbuild(getattr(mod, "BUILD_TARGETS", ("souffle", "souffleprof")))
+            bt = getattr(mod, "BUILD_TARGETS", ("souffle", "souffleprof"))
+            if bt:
+                vbuild(bt)
         if a.replay:
             with open(a.replay) as f:
                 obj = json.load(f)
